@@ -159,12 +159,17 @@ def main(tier):
                 check.inconclusive.append(f'{ob.name}: model did not reproduce natively: {case} -> {nat}')
         elif getattr(ob, 'kind', '') == 'advance':
             dtv = ob.result.model.get('dt')
-            case = {'kind': 'animator_history', 'config': ['single', 'none', 'none', 'none'], 'ops': ['adv:0x%08x' % dtv[1], 'adv:0x%08x' % dtv[1]]}
-            nat = run_replay([case], 'dev', 'replay_anim')[0]
-            if nat.get('panic'):
-                check.report_violation(ob.name, 'C20:advance:duration-overflow', f'StateAnimator::advance({bits2f32(dtv[1])!r}) panics: {nat.get("detail")}', case)
+            # the abstract timeline of the model has an arbitrary valid total duration: the native timeline is tried with the default
+            # timing and with astronomically long (still finite, valid) timings — cycle x (repeats + 1) >= 2^64 s
+            base = {'kind': 'animator_history', 'config': ['single', 'none', 'none', 'none'], 'ops': ['adv:0x%08x' % dtv[1], 'adv:0x%08x' % dtv[1]]}
+            cases = [dict(base)] + [dict(base, timing=t) for t in ('31500000000;0;4294967295;false', '1e30;0;none;false', '3e38;1e30;none;false', '1e25;5;3;true')]
+            nats = run_replay(cases, 'dev', 'replay_anim')
+            hit = next(((c, n) for c, n in zip(cases, nats) if n.get('panic')), None)
+            if hit:
+                case, nat = hit
+                check.report_violation(ob.name, 'C20:advance:duration-overflow', f'StateAnimator advance({bits2f32(dtv[1])!r}) x2 + is_ended on a timeline with timing {case.get("timing", "default")} (cycle;delay;repeat;reverse) panics: {nat.get("detail")}', case)
             else:
-                check.inconclusive.append(f'{ob.name}: model dt={bits2f32(dtv[1])!r} did not panic natively: {nat}')
+                check.inconclusive.append(f'{ob.name}: model dt={bits2f32(dtv[1])!r} did not panic natively: {nats[0]}')
         else:
             check.inconclusive.append(f'{ob.name}: sat {ob.result.model}')
     nob = sum(r['obligations'] for r in results); ndis = sum(r['discharged'] for r in results)
